@@ -101,7 +101,8 @@ func genGeneral(r *lib.RNG, c *lib.Ctx, flavour int, reuse bool) *universe {
 // of any affected set is total), plus responders m+1.. that may answer with an error.
 func genChain(r *lib.RNG, c *lib.Ctx) *universe {
 	m := r.Range(2, 4)
-	nResp := r.Range(1, 2)
+	nResp := r.Range(1, 3)
+	allNone := r.Chance(1, 4) // every responder answers with the packet.None singleton
 	u := &universe{nIds: m + nResp, chain: true, reuse: r.Chance(3, 10)}
 	if u.reuse {
 		c.Hit("universe-chain-reused-objects")
@@ -149,9 +150,15 @@ func genChain(r *lib.RNG, c *lib.Ctx) *universe {
 			}
 			for _, ph := range []int{pInit, pBegin, pTerm, pFinal} {
 				if r.Chance(2, 5) {
-					add(ph, mkRef(m+r.Range(1, nResp)))
-					if r.Chance(1, 4) {
-						add(ph, mkRef(m+r.Range(1, nResp)))
+					// 1–3 targets per lifecycle port (several in half of the ports when there are responders enough)
+					first := r.Range(1, nResp)
+					add(ph, mkRef(m+first))
+					if nResp > 1 && r.Chance(1, 2) {
+						for j := 1; j <= nResp; j++ {
+							if j != first && r.Chance(2, 3) {
+								add(ph, mkRef(m+j))
+							}
+						}
 					}
 				}
 			}
@@ -159,10 +166,22 @@ func genChain(r *lib.RNG, c *lib.Ctx) *universe {
 		}
 	}
 	for k := m + 1; k <= u.nIds; k++ {
-		u.defs = append(u.defs, &SymDef{ID: k, Name: names[k], Kind: kOneToOne})
+		if allNone {
+			// sinks: every request is answered with the packet.None singleton (a flow to several of
+			// them is a success: None is not an error)
+			u.defs = append(u.defs, &SymDef{ID: k, Name: names[k], Kind: kOneToOne, Resp: respNone})
+			if r.Chance(1, 3) {
+				u.defs = append(u.defs, &SymDef{ID: k, Name: names[k], Kind: kOneToOne, Resp: respEmpty})
+			}
+			c.Hit("responders-all-answer-none")
+			continue
+		}
+		u.defs = append(u.defs, &SymDef{ID: k, Name: names[k], Kind: kOneToOne, Resp: lib.Pick(r, []int{0, 0, respNone, respEmpty})})
 		if r.Chance(2, 3) {
-			u.defs = append(u.defs, &SymDef{ID: k, Name: names[k], Kind: kOneToOne, Resp: k})
+			// an error: plain, or wrapped (WithMessage / WithStack / a custom type with Cause())
+			u.defs = append(u.defs, &SymDef{ID: k, Name: names[k], Kind: kOneToOne, Resp: lib.Pick(r, []int{0, 0, 100, 140, 180}) + k})
 			u.hasFail = true
+			c.Hit("responder-answers-error")
 		}
 		if r.Chance(1, 3) {
 			// a responder that answers every request with packet.ErrDroppedPacket
@@ -304,6 +323,12 @@ func (rn *runner) do(line string) {
 		return
 	}
 	after := w.cur
+	errBadMu.Lock()
+	for _, m := range errBad {
+		rn.fail("C08", "error-identity", fmt.Sprintf("%q: %s", line, m))
+	}
+	errBad = nil
+	errBadMu.Unlock()
 	for _, m := range w.hookBad {
 		rn.fail("C08", "hooks", fmt.Sprintf("%q: %s (every registered load hook runs for every activation between the init and the begin flow, in registration order; unload hooks between term and final, last registered first)", line, m))
 	}
@@ -622,6 +647,7 @@ func (rn *runner) oracleC08(line, ret string, evs []ev, before, after map[int]*l
 	}
 	if !aborted && strings.HasPrefix(ret, "err") {
 		rn.fail("C08", "error-not-returned", fmt.Sprintf("%q returned %s but no lifecycle flow answered with an error", line, ret))
+		rn.fail("C07", "aborted-without-cause", fmt.Sprintf("%q returned %s although no lifecycle flow answered with an error and no hook refused: the (de)activation of a symbol whose closure is present was cut short", line, ret))
 	}
 	if aborted && !invisible && len(evs) > 0 && evs[len(evs)-1].k == 'C' {
 		rn.fail("C08", "error-does-not-abort", fmt.Sprintf("%q: a node was closed after the lifecycle flow of symbol %d answered with an error", line, abortSubj))
@@ -1024,6 +1050,7 @@ func RunProp(c *lib.Ctx, which string) {
 		"namespaces and names are strings containing \"/\" chosen so that two different (namespace, name) pairs have the same \"<namespace>/<name>\" text; the model keys the name index by the pair",
 		"in 4 of 10 cases the table is observed sparsely (Keys / Lookup / ports / reverse index read only every 2nd–4th operation and at the end, the model stepped through every operation and compared at those points); return values and hook / node events are compared after every operation in all cases",
 		"size family: about 1 case in 12 is a LARGE universe – 9–70 referrers of one target, a pipeline of 10–80 symbols with lifecycle ports on the far end leading to the near end, a tree (fan-out 3, depth 2–3), 7–40 roots with two private targets each, 34–100 independent symbols – built targets-first, referrers-first or shuffled, then replace / Free / re-Insert at the ends and in the middle, Close and re-use of the table, Close at the end; no failing flows or hooks there (events compared as sets, pass order by the C08 oracle on the real log); return values and events are compared after every operation, keys / wiring / reverse index / active set at `observe` lines (every 8 insertions while building, after every operation afterwards). Sizes beyond 64 in a third of the large cases at quick, half at thorough",
+		"lifecycle ports of chain universes list 1–3 targets; responders answer with a payload, the packet.None singleton, a fresh empty packet, an error (plain, errors.WithMessage, errors.WithStack, a custom type with Cause()), or a dropped packet; the model's exec succeeds iff no responder answers an error (None is not an error). The error an operation returns is mapped back to the model's code by the IDENTITY of the error value the responder put into its types.NewError answer (each part of an errors.Join for several failing targets); same Error() text and errors.As of the custom type are cross-checked [error-identity]",
 		"names are unique per namespace among live symbols (generator enforces it; it is what the runtime's unique index gives the table); each port reference has exactly one of id / name; ids are non-nil",
 		"port names are canonical (no use of the alias out == out[0] of OneToManyNode); no spec names the error port",
 		"lifecycle targets answer every packet (harness nodes always answer; a target that never answers blocks exec in Go and is outside the model)",
